@@ -20,6 +20,7 @@ type DocOpts struct {
 	Dups       bool // duplicate reserved members (the last one counts)
 	EscKeys    bool // \u-escaped member names
 	Nulls      bool // null ordinates in Point / MultiPoint
+	LongPos    bool // positions with more than four elements
 	MixedDims  bool // positions of differing dimensionality inside one geometry
 	LongFirst  bool // allow a later position to have more ordinates than the first
 	Circles    bool // Circle feature convention
@@ -35,7 +36,7 @@ type DocOpts struct {
 
 // DefaultDocOpts is a rich default.
 func DefaultDocOpts() *DocOpts {
-	return &DocOpts{MaxDepth: 4, Foreign: true, Dups: true, EscKeys: true, Nulls: true, MixedDims: true, LongFirst: true, Circles: true, OddNums: true, MaxKids: 4, MaxPts: 6, Span: 8, Rects: true}
+	return &DocOpts{MaxDepth: 4, Foreign: true, Dups: true, EscKeys: true, Nulls: true, LongPos: true, MixedDims: true, LongFirst: true, Circles: true, OddNums: true, MaxKids: 4, MaxPts: 6, Span: 8, Rects: true}
 }
 
 func num(s string) *V { return &V{Kind: 'n', Num: s} }
@@ -98,6 +99,17 @@ func position(r *rand.Rand, o *DocOpts, dim int, allowNull bool) *V {
 			continue
 		}
 		p.El = append(p.El, num(NumText(r, o, i == 1)))
+	}
+	if o.LongPos && r.Intn(40) == 0 {
+		// elements beyond the fourth (decoders look at four at most)
+		for k := 1 + r.Intn(3); k > 0 || len(p.El) < 5; k-- {
+			switch r.Intn(4) {
+			case 0:
+				p.El = append(p.El, &V{Kind: 'z'})
+			default:
+				p.El = append(p.El, num(NumText(r, o, false)))
+			}
+		}
 	}
 	return p
 }
@@ -426,7 +438,7 @@ func GenDocType(r *rand.Rand, o *DocOpts, depth int, t string) *V {
 			g := obj(kv("type", str("Point")), kv("coordinates", position(r, &DocOpts{Span: o.Span}, 2, false)))
 			props := obj(kv("type", str("Circle")))
 			if r.Intn(8) != 0 {
-				props.Mem = append(props.Mem, kv("radius", num([]string{"1000", "1", "0", "250.5", "12345.678", "2.5", "1e3"}[r.Intn(7)])))
+				props.Mem = append(props.Mem, kv("radius", num([]string{"1000", "1", "0", "250.5", "12345.678", "2.5", "1e3", "50000000", "45000", "40030174", "20015087", "-3", "-0.001", "1e-3", "7e7"}[r.Intn(15)])))
 			}
 			switch r.Intn(4) {
 			case 0:
@@ -813,14 +825,14 @@ var TextMutations = []string{"trailing", "truncate", "leading", "wrap-array", "d
 func MutateText(r *rand.Rand, text, name string) string {
 	switch name {
 	case "trailing":
-		return text + []string{"x", "{}", ",", "]", " null", "}", "\x00", " 1"}[r.Intn(8)]
+		return text + []string{"x", "{}", ",", "]", " null", "}", "\x00", " 1", "\v", "\f", "\u0085", "\u00a0", "\u2028", "\u3000", " \u00a0 ", "\x1f"}[r.Intn(16)]
 	case "truncate":
 		if len(text) < 2 {
 			return ""
 		}
 		return text[:r.Intn(len(text))]
 	case "leading":
-		return []string{"x", "[", ",", "\x00", "\x01", "\ufeff", "//c\n", "POINT(1 2)"}[r.Intn(8)] + text
+		return []string{"x", "[", ",", "\x00", "\x01", "\ufeff", "//c\n", "POINT(1 2)", "\v", "\f", "\u0085", "\u00a0", "\u2028", "\u3000", "\u1680 ", "\x1c"}[r.Intn(16)] + text
 	case "wrap-array":
 		return "[" + text + "]"
 	case "drop-byte":
